@@ -30,11 +30,18 @@ fn hexv(v: &Value) -> Vec<u8> {
 }
 
 fn ts_json(t: SystemTime) -> Value {
-    let d = t.duration_since(UNIX_EPOCH).expect("after epoch");
-    json!({"s": d.as_secs(), "n": d.subsec_nanos()})
+    match t.duration_since(UNIX_EPOCH) {
+        Ok(d) => json!({"s": d.as_secs(), "n": d.subsec_nanos()}),
+        // before the epoch: the distance back, flagged
+        Err(e) => json!({"neg": true, "s": e.duration().as_secs(), "n": e.duration().subsec_nanos()}),
+    }
 }
 
 fn ts_of(v: &Value, now: SystemTime) -> SystemTime {
+    if let Some(b) = v.get("before_ns") {
+        // an instant BEFORE the unix epoch (only constructible in memory, never read from the wire)
+        return UNIX_EPOCH - Duration::from_nanos(b.as_u64().expect("before_ns"));
+    }
     if let Some(rel) = v.get("rel_ns") {
         let r = rel.as_i64().expect("rel_ns");
         if r >= 0 { now + Duration::from_nanos(r as u64) } else { now - Duration::from_nanos(r.unsigned_abs()) }
@@ -85,16 +92,29 @@ fn quote_of(v: &Value, now: SystemTime, nkeys: u64) -> (PaymentQuote, Value) {
         Some(k) => key(k.as_u64().unwrap()).public().encode_protobuf(),
         None => hexv(&v["pk"]["raw"]),
     };
+    let mut sign_panic = false;
     let (signature, sym) = if let Some(k) = v["sig"].get("key") {
         let k = k.as_u64().unwrap();
-        let msg = if v["sig"].get("of").is_some() {
-            let g = fields_of(&v["sig"]["of"], now);
-            PaymentQuote::bytes_for_signing(g.content, g.ts, &g.metrics, &g.addr)
-        } else {
-            PaymentQuote::bytes_for_signing(f.content, f.ts, &f.metrics, &f.addr)
+        // bytes_for_signing panics for a pre-epoch timestamp: then there is nothing to sign
+        let msg = catch_unwind(AssertUnwindSafe(|| {
+            if v["sig"].get("of").is_some() {
+                let g = fields_of(&v["sig"]["of"], now);
+                PaymentQuote::bytes_for_signing(g.content, g.ts, &g.metrics, &g.addr)
+            } else {
+                PaymentQuote::bytes_for_signing(f.content, f.ts, &f.metrics, &f.addr)
+            }
+        }));
+        let msg = match msg {
+            Ok(m) => m,
+            Err(_) => {
+                sign_panic = true;
+                b"nothing could be signed".to_vec()
+            }
         };
         let mut s = key(k).sign(&msg).expect("sign");
-        if let Some(cut) = v["sig"].get("truncate").and_then(|c| c.as_u64()) {
+        if sign_panic {
+            (s, Value::Null)
+        } else if let Some(cut) = v["sig"].get("truncate").and_then(|c| c.as_u64()) {
             s.truncate(cut as usize);
             (s, Value::Null)
         } else if let Some(flip) = v["sig"].get("flip").and_then(|c| c.as_u64()) {
@@ -120,9 +140,12 @@ fn quote_of(v: &Value, now: SystemTime, nkeys: u64) -> (PaymentQuote, Value) {
         (0..nkeys).find(|i| key(*i).public() == *pk).unwrap_or(1_000_000)
     });
     let pk_peer = decoded.as_ref().map(|pk| hex::encode(PeerId::from(pk.clone()).to_bytes()));
+    let bfs = catch_unwind(AssertUnwindSafe(|| hex::encode(q.bytes_for_sig()))).ok();
+    let hash = catch_unwind(AssertUnwindSafe(|| hex::encode(q.hash()))).ok();
     let desc = json!({
-        "bfs": hex::encode(q.bytes_for_sig()),
-        "hash": hex::encode(q.hash()),
+        "bfs": bfs,
+        "hash": hash,
+        "sign_panic": sign_panic,
         "pk": hex::encode(&q.pub_key),
         "sig": hex::encode(&q.signature),
         "sym": sym,
@@ -344,8 +367,11 @@ fn run(case: &Value) -> Value {
         "check" => {
             let (q, d) = quote_of(&case["q"], now, nkeys);
             let claimed = peer_of(&case["claimed"]);
-            let r = q.check_is_signed_by_claimed_peer(claimed);
-            json!({"q": d, "claimed": hex::encode(claimed.to_bytes()), "r": r})
+            // a panic is reported as "no verdict" (r = null), not as a harness failure
+            let r = catch_unwind(AssertUnwindSafe(|| q.check_is_signed_by_claimed_peer(claimed)));
+            let msg = r.as_ref().err().map(|p| p.downcast_ref::<String>().cloned()
+                .or_else(|| p.downcast_ref::<&str>().map(|s| s.to_string())).unwrap_or_default());
+            json!({"q": d, "claimed": hex::encode(claimed.to_bytes()), "r": r.ok(), "r_panic": msg})
         }
         "proof" => {
             let mut descs = vec![];
